@@ -28,7 +28,11 @@ func (b *B) GoodAdd(w []byte) error {
 	if b.last != nil && bytes.Compare(b.last, w) >= 0 {
 		return errors.New("out of order")
 	}
-	b.last = w
+	last := w
+	if last == nil {
+		last = []byte{}
+	}
+	b.last = last
 	b.n++
 	return nil
 }
